@@ -12,6 +12,14 @@
 //! the three controllers (`On`, `Off`, `Auto`) record identical frames for identical scripts; the
 //! `parallel` flag handed to the datagram is the mode `pack` really runs in; the propagation matrix
 //! equals a serially computed reference bit for bit; holo gains give identical drives on every run.
+//!
+//! Input dimensions added after the coverage review (notes/coverage-review/C06-C10.md, C10):
+//!  * a `pack` that fails on SOME devices only — model-tied through `group_send` (a Modulation of one sample
+//!    or a tuple whose gain is refused, for the devices of one key) and oracle-only through a fail-probe
+//!    datagram (`FailProbe`: any set of failing devices, at any pack call, with busy work per device);
+//!  * the size of rayon's global pool is fixed to 8 threads (`RAYON_NUM_THREADS`), whatever the host has;
+//!  * statically typed tuples through `Sender::send` / `group_send` (the real `tuple.rs` impl), model-tied;
+//!  * sessions with 32 and 64 devices (more devices than pool threads).
 use crate::common::*;
 use crate::fwc::{self, DgVisitor, Spec, build, gain_drive_words, to_div, to_loop, to_segment};
 use autd3::controller::{Controller, ParallelMode, SenderOption, SpinSleeper};
@@ -195,31 +203,134 @@ where
     }
 }
 
-/// one datagram of a script: a single spec or a pair
+// ------------------------------------------------------------------------------------------------
+// oracle-only: a datagram whose `pack` fails on a chosen SET of devices (coverage review C10 gap 1:
+// every failing datagram of the model-tied kinds fails on all devices alike)
+
+/// the thread-pool threads that were seen packing (evidence that the pool really has several workers)
+static POOL_THREADS: Mutex<Vec<std::thread::ThreadId>> = Mutex::new(Vec::new());
+
+/// `frames` frames per device; the `at`-th `pack` call (1-based) of every device whose index is in the
+/// bit set `fail` returns `Err`; `spin`: a fixed amount of busy work per call that depends on the parity
+/// of the device, so that the device tasks of a thread-pool run overlap and finish out of order
+#[derive(Clone, Debug)]
+struct FailSpec {
+    fail: u64,
+    at: usize,
+    frames: usize,
+    spin: bool,
+}
+#[derive(Debug)]
+struct FailProbe(FailSpec);
+struct FailGen(FailSpec);
+struct FailOp {
+    s: FailSpec,
+    packs: usize,
+}
+impl Operation for FailOp {
+    type Error = AUTDDriverError;
+    fn required_size(&self, _: &Device) -> usize {
+        4
+    }
+    fn pack(&mut self, dev: &Device, tx: &mut [u8]) -> Result<usize, AUTDDriverError> {
+        if self.s.spin {
+            // a fixed iteration count (no clock): even devices ~20x longer than odd ones
+            let k = if dev.idx() % 2 == 0 { 40_000u32 } else { 2_000 };
+            let mut acc = 0u32;
+            for i in 0..k {
+                acc = std::hint::black_box(acc.wrapping_add(i));
+                std::hint::spin_loop();
+            }
+            std::hint::black_box(acc);
+            let id = std::thread::current().id();
+            let mut seen = POOL_THREADS.lock().unwrap();
+            if !seen.contains(&id) {
+                seen.push(id);
+            }
+        }
+        self.packs += 1;
+        if self.packs == self.s.at && (self.s.fail >> (dev.idx() % 64)) & 1 == 1 {
+            return Err(AUTDDriverError::NotSupportedTag);
+        }
+        tx[0] = 0x60;
+        tx[1] = self.packs as u8;
+        tx[2] = dev.idx() as u8;
+        tx[3] = self.s.frames as u8;
+        Ok(4)
+    }
+    fn is_done(&self) -> bool {
+        self.packs >= self.s.frames
+    }
+}
+impl OperationGenerator for FailGen {
+    type O1 = FailOp;
+    type O2 = NullOp;
+    fn generate(&mut self, _: &Device) -> (FailOp, NullOp) {
+        (FailOp { s: self.0.clone(), packs: 0 }, NullOp)
+    }
+}
+impl Datagram for FailProbe {
+    type G = FailGen;
+    type Error = std::convert::Infallible;
+    fn operation_generator(self, _: &Geometry, _: bool) -> Result<FailGen, Self::Error> {
+        Ok(FailGen(self.0))
+    }
+    fn option(&self) -> DatagramOption {
+        DatagramOption::default()
+    }
+}
+
+/// one datagram of a script: a single spec or a pair (model-tied), or a fail probe (oracle only)
 #[derive(Clone, Debug)]
 enum Item {
     One(Spec),
     Pair(Spec, Spec),
+    Fail(FailSpec),
 }
 impl Item {
     fn text(&self) -> String {
         match self {
             Item::One(s) => s.text(),
             Item::Pair(a, b) => format!("pair {} | {}", a.text(), b.text()),
+            Item::Fail(f) => format!("failprobe fail={:x} at={} frames={} spin={} (oracle only)", f.fail, f.at, f.frames, f.spin as u8),
         }
     }
     fn kind(&self) -> String {
         match self {
             Item::One(s) => s.kind().to_string(),
             Item::Pair(a, b) => format!("{}+{}", a.kind(), b.kind()),
+            Item::Fail(_) => "failprobe".to_string(),
         }
     }
     fn run(&self, geo: &Geometry, tx: &mut [TxMessage], parallel: bool) -> Outcome {
         match self {
             Item::One(s) => build(s, RunV { geo, tx, parallel }),
             Item::Pair(a, b) => build(a, PairV1 { geo, tx, parallel, b }),
+            Item::Fail(f) => send_dg(FailProbe(f.clone()), geo, tx, parallel),
         }
     }
+}
+
+/// a fail probe for `n` devices under `mask`: which devices fail is independent of which are enabled
+fn gen_fail_item(r: &mut Rng, n: usize, mask: u64) -> Item {
+    let all = if n >= 64 { u64::MAX } else { (1u64 << n) - 1 };
+    let frames = r.range(1, 4) as usize;
+    let at = r.range(1, frames as u64) as usize;
+    let fail = match r.below(8) {
+        // exactly one enabled device fails (the first, the last, any)
+        0 if mask != 0 => 1u64 << mask.trailing_zeros(),
+        1 if mask != 0 => 1u64 << (63 - mask.leading_zeros()),
+        2 | 3 if mask != 0 => {
+            let en: Vec<u64> = (0..n as u64).filter(|i| (mask >> i) & 1 == 1).collect();
+            1u64 << *r.pick(&en)
+        }
+        // only disabled devices "fail": nothing may fail
+        4 => !mask & all,
+        // a random set
+        5 | 6 => r.next() & all,
+        _ => all,
+    };
+    Item::Fail(FailSpec { fail, at, frames, spin: r.chance(2, 3) })
 }
 
 fn set_mask(geo: &mut Geometry, mask: u64) {
@@ -350,7 +461,7 @@ fn gen_mask(r: &mut Rng, n: usize) -> u64 {
 }
 
 fn mask_class(n: usize, mask: u64) -> &'static str {
-    let all = (1u64 << n) - 1;
+    let all = if n >= 64 { u64::MAX } else { (1u64 << n) - 1 };
     if mask == all {
         "mask:all"
     } else if mask == 0 {
@@ -426,6 +537,40 @@ impl HSession {
                 break;
             }
         }
+        if let Item::Fail(f) = item {
+            // oracle only (no model line, the session state is left as it is).  Beyond "parallel = serial":
+            // the outcome is the one the property text gives — the send fails iff some ENABLED device is in
+            // the failing set and the failing call is reached, after exactly `at - 1` complete frames
+            let hit = f.fail & self.mask & (if self.n >= 64 { u64::MAX } else { (1u64 << self.n) - 1 });
+            let want = if hit != 0 && f.at <= f.frames { ("err:NotSupportedTag".to_string(), f.at - 1) } else { ("ok".to_string(), if self.mask == 0 { 1 } else { f.frames }) };
+            // (no enabled device: `pack` has nothing to do, one untouched frame goes out, `is_done` holds)
+            if (ser.result.clone(), ser.frames.len()) != want {
+                let mut replay = self.log.clone();
+                replay.push(format!("send 0 {text}"));
+                out.violation(
+                    format!("C10:failprobe-expect:n{}:m{:x}:f{:x}", self.n, self.mask, f.fail),
+                    format!(
+                        "{} devices (enable mask {:#x}), {text}: serial send gives {} after {} frames, expected {} after {} frames",
+                        self.n, self.mask, ser.result, ser.frames.len(), want.0, want.1
+                    ),
+                    replay,
+                );
+            }
+            let en = self.mask.count_ones() as u64;
+            out.count(if hit == 0 {
+                if f.fail & !self.mask != 0 { "failprobe:only-disabled-devices-in-the-failing-set (oracle only)" } else { "failprobe:nobody-fails (oracle only)" }
+            } else if (hit.count_ones() as u64) < en {
+                "failprobe:SOME-enabled-devices-fail (oracle only)"
+            } else {
+                "failprobe:all-enabled-devices-fail (oracle only)"
+            });
+            if hit != 0 && f.at > 1 {
+                out.count("failprobe:fails-after-frames-went-out (oracle only)");
+            }
+            out.count(&format!("ndev:{}", self.n));
+            out.case(Some(fnv64(format!("{}|{}|{}", self.n, self.mask, text).as_bytes())));
+            return true;
+        }
         // ---- the model tie: serial line, then thread-pool line, on the running state
         let mut alive = true;
         for (sd, par) in [(0u64, false), (sched.max(1), true)] {
@@ -494,6 +639,11 @@ impl Link for RecLink {
     }
     fn send(&mut self, tx: &[TxMessage]) -> Result<(), LinkError> {
         let mut r = self.rec.lock().unwrap();
+        // the longest legitimate send here has ~210 frames: a send that never finishes (e.g. a pack error that
+        // is swallowed, so that the operation is never done) must end as an answer, not eat the machine
+        if r.frames.len() >= 3000 {
+            return Err(LinkError::new("runaway send: more than 3000 frames"));
+        }
         r.frames.push(tx_bytes(tx));
         r.last_ids = tx.iter().map(|t| t.header.msg_id).collect();
         Ok(())
@@ -573,6 +723,10 @@ impl DgVisitor for CtlV<'_> {
 type TrFn = Box<dyn Fn(&Transducer) -> Drive + Send + Sync + 'static>;
 /// the gain of `Spec::Gain` (drive words from the shared PRNG, per device), statically typed
 fn typed_gain(seed: u64) -> WithSegment<autd3::gain::Custom<'static, TrFn, impl Fn(&Device) -> TrFn>> {
+    typed_gain_tr(seed, 0, None)
+}
+/// the same with segment and transition mode (`Some((0x00, 0))` = SyncIdx, which `GainOp::pack` refuses)
+fn typed_gain_tr(seed: u64, seg: u8, tr: fwc::Tr) -> WithSegment<autd3::gain::Custom<'static, TrFn, impl Fn(&Device) -> TrFn>> {
     WithSegment::new(
         autd3::gain::Custom::new(move |dev: &Device| -> TrFn {
             let w = Arc::new(gain_drive_words(seed, dev.idx()));
@@ -581,8 +735,8 @@ fn typed_gain(seed: u64) -> WithSegment<autd3::gain::Custom<'static, TrFn, impl 
                 Drive { phase: Phase((x & 0xFF) as u8), intensity: EmitIntensity((x >> 8) as u8) }
             })
         }),
-        Segment::S0,
-        None,
+        to_segment(seg),
+        tr.map(fwc::to_transition),
     )
 }
 fn typed_mod(n: usize, seed: u64) -> WithLoopBehavior<autd3::modulation::Custom<SamplingConfig>> {
@@ -593,12 +747,43 @@ fn typed_mod(n: usize, seed: u64) -> WithLoopBehavior<autd3::modulation::Custom<
 #[derive(Clone, Debug)]
 enum GroupItem {
     Gains(Vec<Option<u8>>, Vec<u64>),
+    /// a member with `n = 1` is refused by `ModulationOp::pack` — for the devices of its key only
     Mods(Vec<Option<u8>>, Vec<(usize, u64)>),
+    /// statically typed tuples `(Modulation, Gain)` per key: (mod samples, mod seed, gain seed, bad).  The gain
+    /// of a `bad` member has `TransitionMode::SyncIdx`: `GainOp::pack` refuses it in the frame in which the gain
+    /// first fits behind the modulation — after frames went out, for the devices of that key only
+    Pairs(Vec<Option<u8>>, Vec<(usize, u64, u64, bool)>),
+}
+fn pair_specs(p: &(usize, u64, u64, bool)) -> (Spec, Spec) {
+    (
+        Spec::Mod { seg: 0, tr: None, rep: 0xFFFF, div: 10, n: p.0, seed: p.1 },
+        Spec::Gain { seg: 1, tr: if p.3 { Some((0x00, 0)) } else { None }, seed: p.2 },
+    )
 }
 impl GroupItem {
     fn keys(&self) -> &Vec<Option<u8>> {
         match self {
-            GroupItem::Gains(k, _) | GroupItem::Mods(k, _) => k,
+            GroupItem::Gains(k, _) | GroupItem::Mods(k, _) | GroupItem::Pairs(k, _) => k,
+        }
+    }
+    /// per key: is its datagram one that `pack` refuses
+    fn failing_keys(&self) -> Vec<bool> {
+        match self {
+            GroupItem::Gains(_, s) => vec![false; s.len()],
+            GroupItem::Mods(_, ps) => ps.iter().map(|p| p.0 < 2).collect(),
+            GroupItem::Pairs(_, ps) => ps.iter().map(|p| p.3).collect(),
+        }
+    }
+    /// "none" | "all" | "some": how many of the devices enabled under `mask` that have a key fail
+    fn fail_class(&self, mask: u64) -> &'static str {
+        let fk = self.failing_keys();
+        let used: Vec<bool> = self.keys().iter().enumerate().filter(|(i, _)| (mask >> i) & 1 == 1).filter_map(|(_, k)| k.map(|k| fk[k as usize])).collect();
+        if !used.iter().any(|b| *b) {
+            "none"
+        } else if used.iter().all(|b| *b) {
+            "all"
+        } else {
+            "some"
         }
     }
     fn text(&self) -> String {
@@ -608,6 +793,13 @@ impl GroupItem {
             GroupItem::Mods(_, ps) => ps
                 .iter()
                 .map(|(n, s)| Spec::Mod { seg: 0, tr: None, rep: 0xFFFF, div: 10, n: *n, seed: *s }.text())
+                .collect(),
+            GroupItem::Pairs(_, ps) => ps
+                .iter()
+                .map(|p| {
+                    let (a, b) = pair_specs(p);
+                    format!("pair {} | {}", a.text(), b.text())
+                })
                 .collect(),
         };
         format!("{keys} | {}", dgs.join(" ; "))
@@ -632,6 +824,17 @@ impl GroupItem {
                 let m: HashMap<usize, _> = used.iter().map(|k| (*k, typed_mod(ps[*k].0, ps[*k].1))).collect();
                 c.autd.sender(sender_option(mode)).group_send(key_map, m)
             }
+            GroupItem::Pairs(_, ps) => {
+                // through the real `impl Datagram for (D1, D2)` / `CombinedOperationGenerator`
+                let m: HashMap<usize, _> = used
+                    .iter()
+                    .map(|k| {
+                        let p = ps[*k];
+                        (*k, (typed_mod(p.0, p.1), typed_gain_tr(p.2, 1, if p.3 { Some((0x00, 0)) } else { None })))
+                    })
+                    .collect();
+                c.autd.sender(sender_option(mode)).group_send(key_map, m)
+            }
         };
         let result = match r {
             Ok(()) => "ok".to_string(),
@@ -647,6 +850,31 @@ enum Step {
     Mask(u64),
     Send(Spec),
     Group(GroupItem),
+    /// a statically typed tuple through `Sender::send` (the real `autd3-core/src/datagram/tuple.rs`):
+    /// 0 = (Modulation 875, Gain), 1 = (Gain, PulseWidthEncoder::default()), 2 = (Modulation 300, Gain SyncIdx: refused
+    /// at the second pack)
+    Tuple(u8, u64),
+}
+fn tuple_specs(kind: u8, seed: u64) -> (Spec, Spec) {
+    match kind {
+        0 => (Spec::Mod { seg: 0, tr: None, rep: 0xFFFF, div: 10, n: 875, seed }, Spec::Gain { seg: 0, tr: None, seed }),
+        1 => (Spec::Gain { seg: 0, tr: None, seed }, Spec::PweDefault),
+        _ => (Spec::Mod { seg: 0, tr: None, rep: 0xFFFF, div: 10, n: 300, seed }, Spec::Gain { seg: 1, tr: Some((0x00, 0)), seed }),
+    }
+}
+fn send_tuple(c: &mut Ctl, kind: u8, seed: u64) -> Outcome {
+    let mode = c.mode;
+    let mut sender = c.autd.sender(sender_option(mode));
+    let r = match kind {
+        0 => sender.send((typed_mod(875, seed), typed_gain(seed))),
+        1 => sender.send((typed_gain(seed), PulseWidthEncoder::default())),
+        _ => sender.send((typed_mod(300, seed), typed_gain_tr(seed, 1, Some((0x00, 0))))),
+    };
+    let result = match r {
+        Ok(()) => "ok".to_string(),
+        Err(e) => format!("err:{}", err_name(&e)),
+    };
+    Outcome { result, frames: c.take() }
 }
 
 /// the same script on three controllers; the `Off` and the `On` run are emitted as two model sessions
@@ -678,6 +906,12 @@ fn controller_script(out: &mut Out, n: usize, script: &[Step], sched: u64) {
                     let o = g.run(&mut c);
                     dead = o.result != "ok";
                     recs.push((format!("gsend {}", g.text()), o));
+                }
+                Step::Tuple(kind, seed) => {
+                    let o = send_tuple(&mut c, *kind, *seed);
+                    dead = o.result != "ok";
+                    let (a, b) = tuple_specs(*kind, *seed);
+                    recs.push((format!("send pair {} | {}", a.text(), b.text()), o));
                 }
             }
         }
@@ -1336,16 +1570,25 @@ fn posed_cases(out: &mut Out, r: &mut Rng, repeats: usize) {
 
 // ------------------------------------------------------------------------------------------------
 
+/// size of rayon's global pool in this stream and its children
+const POOL_SIZE: &str = "8";
+
 pub fn run(args: &Args) {
     if args.stream == "parallel-child" {
         child_main();
         return;
     }
+    // The property quantifies over schedules: do not leave the size of rayon's global pool to the host (on a
+    // 1-2 core runner `par_bridge` degenerates to almost serial).  Set before the pool is first used (it is
+    // built lazily) and before any thread exists; the child processes inherit it.
+    // SAFETY: single-threaded at this point (`main` has only parsed the arguments).
+    unsafe { std::env::set_var("RAYON_NUM_THREADS", POOL_SIZE) };
     let mut out = Out::new(&args.out);
     let mut worker = Worker::new();
     let thorough = args.tier == "thorough";
     let mut r = Rng::new(args.seed ^ 0xC10_C10_C10);
     let repeats = if thorough { 8 } else { 3 };
+    out.count(&format!("pool:RAYON_NUM_THREADS={POOL_SIZE}"));
 
     // ---- corpus: the configurations named in the property text first (stable order)
     {
@@ -1373,10 +1616,23 @@ pub fn run(args: &Args) {
         }
     }
 
+    // ---- corpus (oracle only): a pack that fails on SOME devices — device 3 alone, the last enabled one, a
+    // disabled one (nothing fails), at the first call and after frames went out; more devices than pool threads
+    for (n, mask) in [(4usize, 0b1111u64), (5, 0b01101), (16, 0xFFFF), (16, 0x7FFE), (32, 0xFFFF_FFFF), (64, u64::MAX), (64, 0x5555_5555_5555_5555)] {
+        let mut s = HSession::new(&mut out, n, mask, 7);
+        let last = 63 - mask.leading_zeros() as u64;
+        for (fail, at, frames) in [(1u64 << 3, 1usize, 1usize), (1 << 3, 2, 3), (1 << last, 1, 2), (1 << last, 3, 3), (1 << 1, 2, 2), (mask, 2, 2), (!mask & 0xFFFF, 1, 2), (0, 1, 2)] {
+            for spin in [false, true] {
+                s.case(&mut out, &Item::Fail(FailSpec { fail, at, frames, spin }), 1, repeats.max(4));
+            }
+        }
+    }
+
     // ---- path h: random sessions
     let sessions = if thorough { 11000 } else { 700 };
     for si in 0..sessions {
-        let n = if si % 5 == 0 { 16 } else { r.range(1, 16) as usize };
+        // (review gap 4) now and then more devices than the pool has threads: work stealing / batching of par_bridge
+        let n = if si % 5 == 0 { 16 } else if si % (if thorough { 50 } else { 100 }) == 7 { *r.pick(&[32usize, 64]) } else { r.range(1, 16) as usize };
         let mask = gen_mask(&mut r, n);
         let dirty = if r.chance(1, 3) { 0 } else { r.range(1, 1 << 20) };
         let mut s = HSession::new(&mut out, n, mask, dirty);
@@ -1387,7 +1643,13 @@ pub fn run(args: &Args) {
                 s.mask(&mut out, m);
             }
             let big = thorough && r.chance(1, 40) && n <= 8;
-            let item = if r.chance(1, 12) { gen_err_item(&mut r) } else { gen_item(&mut r, big) };
+            let item = if r.chance(1, 10) {
+                gen_fail_item(&mut r, n, s.mask)
+            } else if r.chance(1, 12) {
+                gen_err_item(&mut r)
+            } else {
+                gen_item(&mut r, big)
+            };
             let sched = r.range(1, 1 << 30);
             if !s.case(&mut out, &item, sched, repeats) {
                 break;
@@ -1396,28 +1658,70 @@ pub fn run(args: &Args) {
     }
 
     // ---- path c: controllers with a recording link
+    // corpus (model-tied): group_send in which the pack of ONE key's devices fails while the others succeed
+    // (review gap 1: at the first pack — Modulation of one sample; after two frames — tuple whose gain is refused
+    // when it first fits), and statically typed tuples through `Sender::send` (review gap 3)
+    {
+        let k = |s: &str| -> Vec<Option<u8>> { s.chars().map(|c| if c == '-' { None } else { Some(c as u8 - b'0') }).collect() };
+        let corpus: Vec<(usize, Vec<Step>)> = vec![
+            (4, vec![Step::Group(GroupItem::Mods(k("0001"), vec![(875, 3), (1, 4)]))]),
+            (4, vec![Step::Group(GroupItem::Mods(k("1000"), vec![(2, 3), (1, 4)]))]),
+            (5, vec![Step::Mask(0b11011), Step::Group(GroupItem::Mods(k("01210"), vec![(255, 5), (1500, 6), (1, 7)]))]),
+            (4, vec![Step::Group(GroupItem::Pairs(k("0010"), vec![(300, 1, 2, false), (900, 3, 4, true)]))]),
+            (6, vec![Step::Mask(0b101111), Step::Group(GroupItem::Pairs(k("01-100"), vec![(300, 1, 2, true), (1500, 3, 4, false)]))]),
+            (3, vec![Step::Group(GroupItem::Pairs(k("012"), vec![(300, 1, 2, false), (900, 3, 4, false), (2, 5, 6, false)])), Step::Tuple(0, 11)]),
+            (16, vec![Step::Tuple(0, 21), Step::Mask(0x7FFE), Step::Tuple(1, 22), Step::Tuple(2, 23)]),
+            // the failing key only on a disabled device: nothing fails
+            (3, vec![Step::Mask(0b011), Step::Group(GroupItem::Mods(k("001"), vec![(254, 8), (1, 9)])), Step::Tuple(1, 24)]),
+        ];
+        for (n, script) in &corpus {
+            let mut mask = (1u64 << n) - 1;
+            for st in script {
+                match st {
+                    Step::Mask(m) => mask = *m,
+                    Step::Group(g) => out.count(&format!("group:devices-whose-pack-fails:{} (model-tied)", g.fail_class(mask))),
+                    Step::Tuple(..) => out.count("ctl:typed-tuple (model-tied)"),
+                    _ => {}
+                }
+            }
+            controller_script(&mut out, *n, script, 77);
+        }
+    }
     let scripts = if thorough { 700 } else { 60 };
     for ci in 0..scripts {
         let n = if ci == 0 { 16 } else { r.range(1, 16) as usize };
         let mut script = vec![];
-        let mut mask;
+        let mut mask = (1u64 << n) - 1;
         let len = r.range(3, 6);
         for k in 0..len {
             if k == 1 || r.chance(1, 4) {
                 mask = gen_mask(&mut r, n);
                 script.push(Step::Mask(mask));
             }
-            match r.below(4) {
-                0 => {
-                    // group_send: keys over all devices, a datagram per key
+            match r.below(9) {
+                0 | 1 | 2 => {
+                    // group_send: keys over all devices, a datagram per key; now and then the datagram of ONE key
+                    // is one that `pack` refuses (for the devices of that key only)
                     let nk = r.range(1, 3) as u8;
                     let keys: Vec<Option<u8>> = (0..n).map(|_| if r.chance(1, 4) { None } else { Some(r.below(nk as u64) as u8) }).collect();
-                    let g = if r.chance(1, 2) {
-                        GroupItem::Gains(keys, (0..nk).map(|_| r.range(1, 1 << 20)).collect())
-                    } else {
-                        GroupItem::Mods(keys, (0..nk).map(|_| (*r.pick(&[2usize, 254, 255, 875, 1500]), r.range(1, 1 << 20))).collect())
+                    let bad_key = if r.chance(1, 3) { r.below(nk as u64) as usize } else { usize::MAX };
+                    let g = match r.below(3) {
+                        0 => GroupItem::Gains(keys, (0..nk).map(|_| r.range(1, 1 << 20)).collect()),
+                        1 => GroupItem::Mods(
+                            keys,
+                            (0..nk as usize).map(|k| (if k == bad_key { 1 } else { *r.pick(&[2usize, 254, 255, 875, 1500]) }, r.range(1, 1 << 20))).collect(),
+                        ),
+                        _ => GroupItem::Pairs(
+                            keys,
+                            (0..nk as usize).map(|k| (*r.pick(&[2usize, 300, 900, 1500]), r.range(1, 1 << 20), r.range(1, 1 << 20), k == bad_key)).collect(),
+                        ),
                     };
+                    out.count(&format!("group:devices-whose-pack-fails:{} (model-tied)", g.fail_class(mask)));
                     script.push(Step::Group(g));
+                }
+                3 => {
+                    out.count("ctl:typed-tuple (model-tied)");
+                    script.push(Step::Tuple(if r.chance(1, 8) { 2 } else { r.below(2) as u8 }, r.range(1, 1 << 20)));
                 }
                 _ => script.push(Step::Send(fix_ss(gen_spec(&mut r, false)))),
             }
@@ -1523,10 +1827,18 @@ pub fn run(args: &Args) {
         posed_cases(&mut out, &mut r, repeats);
     }
 
+    {
+        let seen = POOL_THREADS.lock().unwrap();
+        let main_id = std::thread::current().id();
+        out.notes.push(format!(
+            "rayon global pool configured with RAYON_NUM_THREADS={POOL_SIZE}; {} distinct pool threads were seen packing the spinning fail probes",
+            seen.iter().filter(|t| **t != main_id).count()
+        ));
+    }
     out.count_n("child processes started", worker.spawns);
     out.notes.push("Greedy is excluded from the run-to-run comparison: it shuffles with rand::rng() (not a deterministic datagram)".into());
     out.finish(
         "parallel",
-        "sessions of sends over 1..16 devices with enable masks (all, none, single, first/last disabled, alternating, random) and dirty tx buffers: every kind of datagram at frame-boundary sizes, pairs and failing packs; each case = (oracle) parallel=true ×k vs parallel=false from identical buffers, (model) a serial and a thread-pool send line; the same scripts incl. group_send on Controllers with a recording link under Off/On/Auto; the parallel decision at enabled = threshold, threshold ± 1 for every mode; parallel_threshold of every datagram kind at the 4000-foci boundary; propagation-matrix layouts with disabled devices and filters on both branches; holo gains and posed geometries run-to-run",
+        "rayon's global pool fixed to 8 threads. Sessions of sends over 1..16 (now and then 32 / 64) devices with enable masks (all, none, single, first/last disabled, alternating, random) and dirty tx buffers: every kind of datagram at frame-boundary sizes, pairs and failing packs; each case = (oracle) parallel=true ×k vs parallel=false from identical buffers, (model) a serial and a thread-pool send line; ORACLE-ONLY fail probes (`failprobe:*` counters): a datagram whose pack fails for a chosen set of devices (one enabled device, only disabled ones, random sets, all) at a chosen pack call, with parity-dependent busy work so that the device tasks overlap — parallel vs serial result, frames and frame count, and the outcome the property text gives; the same scripts on Controllers with a recording link under Off/On/Auto, incl. MODEL-TIED group_send whose pack fails for the devices of ONE key only (`group:devices-whose-pack-fails:some`: Modulation of one sample at the first pack, tuple (Modulation, Gain SyncIdx) after frames went out) and statically typed tuples through Sender::send (`ctl:typed-tuple`); the parallel decision at enabled = threshold, threshold ± 1 for every mode; parallel_threshold of every datagram kind at the 4000-foci boundary; propagation-matrix layouts with disabled devices and filters on both branches; holo gains and posed geometries run-to-run",
     );
 }
